@@ -60,6 +60,7 @@ class Smt:
         self.bits_of_fp = {}    # fp ast id -> bv var
         self.pc = []
         self.uf = {}
+        self._fpconst = {}
         self.query_log = None   # optional list of smt2 strings
         self._keep = []
 
@@ -104,8 +105,12 @@ class Smt:
         return b
 
     def fpval(self, bits):
-        """concrete bits -> z3 FP numeral"""
-        return z3.fpBVToFP(z3.BitVecVal(bits, 64), F64)
+        """concrete bits -> z3 FP numeral (canonical AST so that equal constants are syntactically equal)"""
+        c = self._fpconst.get(bits)
+        if c is None:
+            c = z3.simplify(z3.fpBVToFP(z3.BitVecVal(bits, 64), F64))
+            self._fpconst[bits] = c
+        return c
 
     def fp_lift(self, v):
         return self.fpval(v) if isinstance(v, int) else v
